@@ -80,8 +80,42 @@ def loop_over_variables(fn, stmts):
 # ------------------------------------------------------------------------------------------ class tests
 
 
+# class names of isinstance tests -> pycls of Model/DecisionKinds.v; ISINST: (holds for the string "_", for a list)
+PY_CLASSES = {"list": "CList", "tuple": "CTuple", "str": "CStr", "Sequence": "CSeq", "abc.Sequence": "CSeq",
+              "collections.abc.Sequence": "CSeq", "np.ndarray": "CArr", "numpy.ndarray": "CArr", "ndarray": "CArr"}
+ISINST = {"CList": (False, True), "CTuple": (False, False), "CStr": (True, False), "CSeq": (True, True),
+          "CArr": (False, False)}
+
+
+def py_classes(node):
+    """the class argument of isinstance -> [pycls, ...] or None if a class is not listed"""
+    elts = node.elts if isinstance(node, ast.Tuple) else [node]
+    if isinstance(node, ast.BinOp) and isinstance(node.op, ast.BitOr):       # list | tuple
+        elts, todo = [], [node]
+        while todo:
+            n = todo.pop()
+            if isinstance(n, ast.BinOp) and isinstance(n.op, ast.BitOr):
+                todo += [n.right, n.left]
+            else:
+                elts.append(n)
+    out = []
+    for e in elts:
+        c = PY_CLASSES.get(u(e))
+        if c is None:
+            return None
+        out.append(c)
+    return out or None
+
+
+def base_of(cls):
+    """A class is "scalar" | "shared" | "percomp", or a PATH ("path", base, kind, n): the tests on var.values are
+    decided for an object of that kind with n placeholders, everything else as for the base class."""
+    return cls[1] if isinstance(cls, tuple) else cls
+
+
 def class_test(test, var, cls):
     """Truth value of a branch test for a variable of class `cls`, or None if the shape is not listed."""
+    cls = base_of(cls)
     scalar = cls == SCALAR
     # var.values == "_"   /   var.values != "_"
     if (isinstance(test, ast.Compare) and len(test.ops) == 1 and is_var_values(test.left, var)
@@ -95,11 +129,19 @@ def class_test(test, var, cls):
     # (a str is a Sequence too, but every accepted chain tests `== "_"` first; see `if_chain`)
     if (isinstance(test, ast.Call) and is_name(test.func, "isinstance") and len(test.args) == 2
             and is_var_values(test.args[0], var)):
-        t = u(test.args[1])
-        if t in ("list", "(list, tuple)", "(tuple, list)"):
-            return not scalar
-        if t in ("Sequence", "abc.Sequence", "collections.abc.Sequence"):
+        cs = py_classes(test.args[1])
+        if cs is None:
+            return None
+        if cs == ["CSeq"]:
             return "sequence"
+        return any(ISINST[c][0 if scalar else 1] for c in cs)
+    # type(var.values) is list | == list
+    if (isinstance(test, ast.Compare) and len(test.ops) == 1 and isinstance(test.ops[0], (ast.Is, ast.Eq))
+            and isinstance(test.left, ast.Call) and is_name(test.left.func, "type") and len(test.left.args) == 1
+            and is_var_values(test.left.args[0], var)):
+        cs = py_classes(test.comparators[0])
+        if cs and len(cs) == 1 and cs[0] != "CSeq":
+            return ISINST[cs[0]][0 if scalar else 1]
         return None
     # all(x == "_" for x in var.values[:] | var.values)
     if (isinstance(test, ast.Call) and is_name(test.func, "all") and len(test.args) == 1
@@ -117,6 +159,14 @@ def class_test(test, var, cls):
                     and isinstance(e.comparators[0], ast.Constant) and e.comparators[0].value == "_"):
                 return True          # holds for "_" and for a list of "_" alike
         return None
+    # not A   (a str is a Sequence: `not isinstance(var.values, Sequence)` is false for "_" and for a list)
+    if isinstance(test, ast.UnaryOp) and isinstance(test.op, ast.Not):
+        v = class_test(test.operand, var, cls)
+        return None if v is None else (False if v == "sequence" else not v)
+    # A or B
+    if isinstance(test, ast.BoolOp) and isinstance(test.op, ast.Or):
+        vals = [class_test(t, var, cls) for t in test.values]
+        return None if any(v is None for v in vals) else any(bool(v) for v in vals)
     # A and B
     if isinstance(test, ast.BoolOp) and isinstance(test.op, ast.And):
         vals = [class_test(t, var, cls) for t in test.values]
@@ -137,6 +187,8 @@ def class_test(test, var, cls):
 def resolve_test(test, var, cls, scalar_tested):
     """-> bool.  `isinstance(var.values, Sequence)` is true for the string "_" as well: it is accepted only
     after an earlier test of the same chain has sent the scalar class elsewhere."""
+    if isinstance(cls, tuple) and mentions_values(test, var):
+        return bool(ttest_of(test, var)[1](cls[2], cls[3]))
     v = class_test(test, var, cls)
     if v is None:
         fail(test, "branch test is not one of the listed shapes")
@@ -264,7 +316,17 @@ def clin(l):
 
 
 def width_of(cls):
-    return "(WConst 1)" if cls == SCALAR else "WLen"
+    return "(WConst 1)" if base_of(cls) == SCALAR else "WLen"
+
+
+USED_LEN = [False]      # set by at_width_one: the last path executed for the scalar class used len(var.values)
+
+
+def at_width_one(l):
+    """a linear form where the width is the constant 1 (the scalar class; len("_") = 1)"""
+    if l[2]:
+        USED_LEN[0] = True
+    return (l[0] + l[2], l[1], 0)
 
 
 # ------------------------------------------------------------------------------------------ _set_bound
@@ -406,12 +468,9 @@ def set_bound(tree):
         fail(s, "_set_bound: statement before the loop is not a listed shape")
     if not (inits.get(low_acc) and inits.get(high_acc)) or any(not skip_stmt(s) for s in stmts[i + 1:-1]):
         fail(fn, "_set_bound: the two lists must start empty and be returned right after the loop")
-    branches = {}
-    for cls in (SCALAR, SHARED, PERCOMP):
-        try:
-            line = flatten(loop.body, var, cls)
-        except Refused:
-            fail(loop, f"_set_bound refuses every variable of class {cls}")
+    def run(cls):
+        line = flatten(loop.body, var, cls)
+        base = base_of(cls)
         env, got = {}, {}
         for s in line:
             if skip_stmt(s):
@@ -426,7 +485,7 @@ def set_bound(tree):
             # lo, hi = var.boundaries
             if ap and isinstance(ap[0], ast.Tuple) and len(ap[0].elts) == 2 and all(is_name(e) for e in ap[0].elts) \
                     and is_boundaries(ap[1], var):
-                if cls == PERCOMP:
+                if base == PERCOMP:
                     fail(s, "unpacking of 2-D boundaries")
                 for k, e in enumerate(ap[0].elts):
                     env[e.id] = ("num", k, "LNone")
@@ -435,7 +494,7 @@ def set_bound(tree):
                 val = sb_value(ap[1], env, var)
                 if val is None:
                     fail(s, "_set_bound: assignment is not a listed read of var.boundaries")
-                if val[1] == "SColumn" and cls != PERCOMP or val[1] == "SRepeat" and cls == PERCOMP:
+                if val[1] == "SColumn" and base != PERCOMP or val[1] == "SRepeat" and base == PERCOMP:
                     fail(s, "_set_bound: read does not fit the boundaries shape of this class")
                 env[ap[0].id] = val
                 continue
@@ -452,14 +511,22 @@ def set_bound(tree):
         for acc in (low_acc, high_acc):
             v = got[acc]
             if v[0] == "num":
-                if cls != SCALAR:
+                if base != SCALAR:
                     fail(loop, "a list of placeholders contributes a single number")
                 sides.append(f"(mkSide (SUnpack {v[1]}) {v[2]})")
             else:
-                if cls == SCALAR:
+                if base == SCALAR:
                     fail(loop, "a scalar contributes an array")
                 sides.append(f"(mkSide ({v[1]} {v[2]}) {v[3]})")
-        branches[cls] = f"(mkSBranch {sides[0]} {sides[1]})"
+        return f"(mkSBranch {sides[0]} {sides[1]})"
+
+    branches = {}
+    for cls in (SCALAR, SHARED, PERCOMP):
+        try:
+            branches[cls] = run(cls)
+        except Refused:
+            fail(loop, f"_set_bound refuses every variable of class {cls}")
+    branches["tests"] = walk_tree(fn, loop, var, run, branches)
     return branches
 
 
@@ -514,12 +581,10 @@ def convert(tree):
     if not (len(tail) == 1 and isinstance(tail[0], ast.Return) and is_name(tail[0].value, arr)):
         fail(fn, "convert_to_parameters must return the working array right after the loop")
     offs = [k for k, v in env0.items() if v[1:] == (0, 0)]
-    branches, a0 = {}, None
-    for cls in (SCALAR, SHARED):
-        try:
-            line = flatten(loop.body, var, cls)
-        except Refused:
-            fail(loop, f"convert_to_parameters refuses class {cls}")
+    a0s = []
+
+    def run(cls):
+        line = flatten(loop.body, var, cls)
         # a_entry is symbolic for the name(s) initialised before the loop
         res = None
         for a_name in offs:
@@ -577,8 +642,22 @@ def convert(tree):
             int_stmt(s, env, var)
         if env[a_name] != step:
             fail(loop, "the running offset moves differently for logarithmic and linear variables")
-        a0 = env0[a_name][0]
-        branches[cls] = f"(mkCBranch {width_of(cls)} {clin(site[0])} {clin(site[1])} {clin(step)})"
+        a0s.append(env0[a_name][0])
+        forms = (site[0], site[1], step)
+        if base_of(cls) == SCALAR:
+            forms = tuple(at_width_one(f) for f in forms)
+        return f"(mkCBranch {width_of(cls)} {clin(forms[0])} {clin(forms[1])} {clin(forms[2])})"
+
+    branches = {}
+    for cls in (SCALAR, SHARED):
+        try:
+            branches[cls] = run(cls)
+        except Refused:
+            fail(loop, f"convert_to_parameters refuses class {cls}")
+    a0 = a0s[0]
+    if any(a != a0 for a in a0s):
+        fail(loop, "convert_to_parameters: two running offsets")
+    branches["tests"] = walk_tree(fn, loop, var, run, branches, width_only=True)
     return copy, a0, branches
 
 
@@ -616,12 +695,11 @@ def update(tree):
     tail = [s for s in stmts[i + 1:] if not skip_stmt(s)]
     if not (len(tail) == 1 and isinstance(tail[0], ast.Return) and is_name(tail[0].value, target)):
         fail(fn, "update_processor must return the processor it configured right after the loop")
-    branches, a0 = {}, None
-    for cls in (SCALAR, SHARED):
-        try:
-            line = flatten(loop.body, var, cls)
-        except Refused:
-            fail(loop, f"update_processor refuses class {cls}")
+    a0s = []
+
+    def run(cls):
+        line = flatten(loop.body, var, cls)
+        one = at_width_one if base_of(cls) == SCALAR else (lambda l: l)
         res = None
         for a_name in [k for k, v in env0.items() if v[1:] == (0, 0)]:
             env = dict(env0)
@@ -653,11 +731,11 @@ def update(tree):
                     if isinstance(v.slice, ast.Slice):
                         if v.slice.step is not None or v.slice.lower is None or v.slice.upper is None:
                             fail(s, "the slice must be parameter[start:stop]")
-                        sel = f"(USlice {clin(lin_of(v.slice.lower, env, var))} {clin(lin_of(v.slice.upper, env, var))})"
+                        sel = f"(USlice {clin(one(lin_of(v.slice.lower, env, var)))} {clin(one(lin_of(v.slice.upper, env, var)))})"
                         dep = lin_of(v.slice.lower, env, var)[1] or lin_of(v.slice.upper, env, var)[1]
                     else:
                         l = lin_of(v.slice, env, var)
-                        sel, dep = f"(UIndex {clin(l)})", l[1]
+                        sel, dep = f"(UIndex {clin(one(l))})", l[1]
                     continue
                 if int_stmt(s, env, var):
                     continue
@@ -671,8 +749,19 @@ def update(tree):
             # two integer names start at a constant (a, b = 0, 0): the offset is the one the selection uses
             fail(loop, "update_processor: no running offset found")
         a_name, sel, step = res
-        a0 = env0[a_name][0]
-        branches[cls] = f"(mkUBranch {width_of(cls)} {sel} {clin(step)})"
+        a0s.append(env0[a_name][0])
+        return f"(mkUBranch {width_of(cls)} {sel} {clin(one(step))})"
+
+    branches = {}
+    for cls in (SCALAR, SHARED):
+        try:
+            branches[cls] = run(cls)
+        except Refused:
+            fail(loop, f"update_processor refuses class {cls}")
+    a0 = a0s[0]
+    if any(a != a0 for a in a0s):
+        fail(loop, "update_processor: two running offsets")
+    branches["tests"] = walk_tree(fn, loop, var, run, branches)
     return copy, a0, branches
 
 
@@ -1023,15 +1112,279 @@ def reporting(ar_tree, fd_tree):
     return champion, best, final, keeps_1d
 
 
+# ------------------------------------------------------------------------------------------ type tests of the walks
+
+
+def mentions_values(test, var):
+    """does the test look at var.values other than through len(var.values)?"""
+    lens = {id(n.args[0]) for n in ast.walk(test) if is_len_values(n, var)}
+    return any(is_var_values(n, var) and id(n) not in lens for n in ast.walk(test))
+
+
+def ttest_of(test, var):
+    """branch test on var.values -> (Coq ttest term, python evaluator (kind, n) -> bool)"""
+    if isinstance(test, ast.Compare) and len(test.ops) == 1 and isinstance(test.ops[0], (ast.Eq, ast.NotEq)):
+        a, b = test.left, test.comparators[0]
+        if isinstance(a, ast.Constant):
+            a, b = b, a
+        if is_var_values(a, var) and isinstance(b, ast.Constant) and b.value == "_":
+            eq = ("TEq", lambda k, n: k == "KUnd" or (k == "KArr" and n == 1))
+            if isinstance(test.ops[0], ast.Eq):
+                return eq
+            return ("(TNot TEq)", lambda k, n: not eq[1](k, n))
+    # type(var.values) is list / == list
+    if isinstance(test, ast.Compare) and len(test.ops) == 1 and isinstance(test.ops[0], (ast.Is, ast.Eq)) \
+            and isinstance(test.left, ast.Call) and is_name(test.left.func, "type") and len(test.left.args) == 1 \
+            and is_var_values(test.left.args[0], var):
+        cs = py_classes(test.comparators[0])
+        if cs and len(cs) == 1 and cs[0] != "CSeq":
+            return (f"(TInst [{cs[0]}])", lambda k, n, cs=cs: KIND_INST[k][cs[0]])
+    if (isinstance(test, ast.Call) and is_name(test.func, "isinstance") and len(test.args) == 2 and not test.keywords
+            and is_var_values(test.args[0], var)):
+        cs = py_classes(test.args[1])
+        if cs is None:
+            fail(test, "isinstance test on var.values with a class that is not listed")
+        return (f"(TInst [{'; '.join(cs)}])", lambda k, n, cs=cs: any(KIND_INST[k][c] for c in cs))
+    if class_test(test, var, SHARED) is True and isinstance(test, ast.Call) and is_name(test.func, "all"):
+        return ("TAllPh", lambda k, n: True)
+    if isinstance(test, ast.BoolOp):
+        parts = [ttest_of(t, var) for t in test.values]
+        con, py = ("TAnd", all) if isinstance(test.op, ast.And) else ("TOr", any)
+        term = parts[-1][0]
+        for t, _ in reversed(parts[:-1]):
+            term = f"({con} {t} {term})"
+        return (term, lambda k, n, parts=parts, py=py: py(f(k, n) for _, f in parts))
+    if isinstance(test, ast.UnaryOp) and isinstance(test.op, ast.Not):
+        t, f = ttest_of(test.operand, var)
+        return (f"(TNot {t})", lambda k, n, f=f: not f(k, n))
+    fail(test, "test on var.values is not one of the listed shapes")
+
+
+# isinst of Model/DecisionKinds.v
+KIND_INST = {
+    "KUnd": dict(CList=False, CTuple=False, CStr=True, CArr=False, CSeq=True),
+    "KList": dict(CList=True, CTuple=False, CStr=False, CArr=False, CSeq=True),
+    "KTuple": dict(CList=False, CTuple=True, CStr=False, CArr=False, CSeq=True),
+    "KStr": dict(CList=False, CTuple=False, CStr=True, CArr=False, CSeq=True),
+    "KArr": dict(CList=False, CTuple=False, CStr=False, CArr=True, CSeq=False),
+    "KSeq": dict(CList=False, CTuple=False, CStr=False, CArr=False, CSeq=True),
+    "KIter": dict(CList=False, CTuple=False, CStr=False, CArr=False, CSeq=False),
+}
+
+
+def type_tree(stmts, var, fn):
+    """The if / elif chains on var.values of a loop body as a decision tree.
+    -> ("leaf", raises, id) | ("if", (term, evaluator), then, else)"""
+    tests = [s for s in stmts if isinstance(s, ast.If) and mentions_values(s.test, var)]
+    for s in stmts:
+        if s in tests:
+            continue
+        for n in ast.walk(s):
+            if isinstance(n, (ast.If, ast.IfExp, ast.While)) and mentions_values(n.test, var):
+                fail(n, f"{fn.name}: a test on var.values below a statement that is not such a test")
+            if isinstance(n, (ast.Try, ast.Match)):
+                fail(n, f"{fn.name}: try / match in a walk over the variables")
+    if not tests:
+        return ("leaf", only_raises([s for s in stmts if not skip_stmt(s)]), object())
+    if len(tests) > 1:
+        fail(tests[1], f"{fn.name}: two separate chains of tests on var.values in one block")
+    s = tests[0]
+    return ("if", ttest_of(s.test, var), type_tree(s.body, var, fn), type_tree(s.orelse, var, fn))
+
+
+def tree_leaf(tree, k, n):
+    while tree[0] == "if":
+        tree = tree[2] if tree[1][1](k, n) else tree[3]
+    return tree
+
+
+def emit_tree(tree, labels):
+    if tree[0] == "leaf":
+        return f"(GLeaf {labels.get(id(tree[2]), 'ORaise' if tree[1] else 'OSkip')})"
+    return f"(GIf {tree[1][0]} {emit_tree(tree[2], labels)} {emit_tree(tree[3], labels)})"
+
+
+KINDS = ["KUnd", "KList", "KTuple", "KStr", "KArr", "KSeq", "KIter"]
+# canonical objects first: their leaves are labelled by what "_" and a list do
+REPRESENTATIVES = [("KUnd", 1), ("KList", 2)] + [(k, n) for k in KINDS for n in (0, 1, 2) if (k == "KUnd") <= (n == 1)]
+
+
+def leaf_label(run, branches, k, n):
+    """What the walk does on the path an object of kind k with n placeholders takes, compared with what it does
+    for "_" (branches[SCALAR]) and for a list (branches[SHARED])."""
+    from harness.core import TranslationError
+
+    for base, lab in ((SHARED, "OVector"), (SCALAR, "OScalar")):
+        try:
+            USED_LEN[0] = False
+            # the scalar thing: the same forms as for "_" with a width that is the CONSTANT 1
+            if run(("path", base, k, n)) == branches[base] and not (base == SCALAR and USED_LEN[0]):
+                return lab
+        except Refused:
+            return "ORaise"
+        except TranslationError:
+            pass
+    return "OSkip"
+
+
+def walk_tree(fn, loop, var, run, branches, width_only=False):
+    """-> Coq gtree of one walk: its if / elif chains on var.values as a decision tree; every leaf that some
+    container reaches is labelled with what the walk does on that path - the scalar thing (what it does for "_"),
+    the vector thing (what it does for a list), a refusal, or something else (OSkip: no branch taken, nothing
+    assigned, a stale width ...).
+    width_only: the walk uses nothing but the number of components (convert_to_parameters, the count of
+    __init__); there "_" may share the branch of a list (len("_") = 1 component)."""
+    tree = type_tree(loop.body, var, fn)
+    ls, lv = tree_leaf(tree, "KUnd", 1), tree_leaf(tree, "KList", 2)
+    if ls is lv and not width_only:
+        fail(loop, f"{fn.name}: the string \"_\" and a list of placeholders take the same branch")
+    labels = {}
+    for k, n in REPRESENTATIVES:
+        leaf = tree_leaf(tree, k, n)
+        if id(leaf[2]) not in labels:
+            labels[id(leaf[2])] = leaf_label(run, branches, k, n)
+    if width_only and ls is lv:
+        labels[id(ls[2])] = "OVector"          # len(var.values) components, 1 for "_"
+    elif labels[id(ls[2])] != "OScalar" or labels[id(lv[2])] != "OVector":
+        fail(loop, f"{fn.name}: the branches of \"_\" and of a list are not told apart")
+    return emit_tree(tree, labels)
+
+
+def init_count(fd_tree):
+    """__init__: the count of parameters (a loop over self._variables at top level of the body) -> option gtree"""
+    init = find_func(fd_tree, "__init__", CLS)
+    loops = [s for s in body_no_doc(init) if isinstance(s, ast.For) and is_attr(s.iter, "self", "_variables")]
+    if len(loops) > 1:
+        fail(loops[1], "__init__: more than one loop over self._variables")
+    if not loops:
+        return "None"
+    loop = loops[0]
+    if not is_name(loop.target) or loop.orelse:
+        fail(loop, "__init__: the loop must be `for <var> in self._variables:`")
+    var = loop.target.id
+
+    def run(cls):
+        one = at_width_one if base_of(cls) == SCALAR else (lambda l: l)
+        env, incs = {}, []
+        for s in flatten(loop.body, var, cls):
+            if skip_stmt(s):
+                continue
+            if isinstance(s, ast.AugAssign) and isinstance(s.op, ast.Add) and is_name(s.target) and s.target.id not in env:
+                incs.append((s.target.id, one(lin_of(s.value, env, var))))     # the counter, bound before the loop
+                continue
+            if int_stmt(s, env, var):
+                continue
+            fail(s, "__init__: statement in the loop over the variables is not a listed shape")
+        if len(incs) != 1:
+            fail(loop, "__init__: the loop over the variables does not move exactly one counter")
+        return incs[0]
+
+    branches = {}
+    for cls in (SCALAR, SHARED):
+        try:
+            branches[cls] = run(cls)
+        except Refused:
+            fail(loop, f"__init__: the count of parameters refuses class {cls}")
+    if branches[SCALAR][1] != (1, 0, 0) or branches[SHARED][1] != (0, 0, 1) or branches[SCALAR][0] != branches[SHARED][0]:
+        fail(loop, "__init__: the count of parameters is not 1 for \"_\" and len(var.values) for a list")
+    return f"(Some {walk_tree(init, loop, var, run, branches, width_only=True)})"
+
+
+CONTAINERS = {"list": "KList", "tuple": "KTuple", "np.array": "KArr", "np.asarray": "KArr", "numpy.array": "KArr"}
+
+
+def container_of(e, env):
+    """the kind of the OUTER container an expression of convert_values builds, or None"""
+    if isinstance(e, (ast.ListComp, ast.List)):
+        return "KList"
+    if isinstance(e, ast.Tuple):
+        return "KTuple"
+    if isinstance(e, ast.Call) and u(e.func) in CONTAINERS and len(e.args) == 1:
+        return CONTAINERS[u(e.func)]
+    if isinstance(e, ast.Name):
+        return env.get(e.id)
+    return None
+
+
+def convert_values_norm(pv_tree):
+    """convert_values (parameter_values.py): which outer container `ParameterValues.values` is, per class of the
+    container handed in -> norm_desc"""
+    fn = find_func(pv_tree, "convert_values")
+    params = [a.arg for a in fn.args.args]
+    if len(params) != 2:
+        fail(fn, "convert_values signature")
+    vname, tname = params
+    stmts = [s for s in body_no_doc(fn) if not skip_stmt(s)]
+    keep_simple = keep_und = False
+    # if parameter_type is ParameterType.Simple or values == "_": return values
+    if stmts and isinstance(stmts[0], ast.If) and not stmts[0].orelse and len(stmts[0].body) == 1 \
+            and isinstance(stmts[0].body[0], ast.Return) and is_name(stmts[0].body[0].value, vname):
+        t = stmts[0].test
+        for c in (t.values if isinstance(t, ast.BoolOp) and isinstance(t.op, ast.Or) else [t]):
+            if isinstance(c, ast.Compare) and len(c.ops) == 1 and isinstance(c.ops[0], (ast.Is, ast.Eq)) \
+                    and is_name(c.left, tname) and u(c.comparators[0]) == "ParameterType.Simple":
+                keep_simple = True
+            elif isinstance(c, ast.Compare) and len(c.ops) == 1 and isinstance(c.ops[0], ast.Eq) \
+                    and is_name(c.left, vname) and isinstance(c.comparators[0], ast.Constant) \
+                    and c.comparators[0].value == "_":
+                keep_und = True
+            else:
+                fail(c, "convert_values: the guard of `return values` is not a listed shape")
+        stmts = stmts[1:]
+    env, rules, default = {}, [], None
+    for s in stmts:
+        ap = assign_parts(s)
+        if ap and is_name(ap[0]):
+            k = container_of(ap[1], env)
+            if k is None:
+                fail(s, "convert_values: assignment of something that is not a listed container")
+            env[ap[0].id] = k
+            continue
+        if isinstance(s, ast.If) and not s.orelse and len(s.body) == 1 and isinstance(s.body[0], ast.Return) \
+                and isinstance(s.test, ast.Call) and is_name(s.test.func, "isinstance") and len(s.test.args) == 2 \
+                and is_name(s.test.args[0], vname):
+            cs = py_classes(s.test.args[1])
+            k = container_of(s.body[0].value, env)
+            if cs is None or k is None:
+                fail(s, "convert_values: `if isinstance(values, ...): return ...` with an unlisted class / container")
+            rules += [(c, k) for c in cs]
+            continue
+        if isinstance(s, ast.Return):
+            default = container_of(s.value, env)
+            if default is None:
+                fail(s, "convert_values: the value returned is not a listed container")
+            if s is not stmts[-1]:
+                fail(s, "convert_values: statements after the final return")
+            continue
+        fail(s, "convert_values: statement is not a listed shape")
+    if default is None:
+        fail(fn, "convert_values: no final return of a container")
+    # ParameterValues.__init__ keeps convert_values(values, ...) and nothing else under self._values
+    init = find_func(pv_tree, "__init__", "ParameterValues")
+    kept = [assign_parts(s) for s in ast.walk(init) if isinstance(s, (ast.Assign, ast.AnnAssign)) and assign_parts(s)
+            and is_attr(assign_parts(s)[0], "self", "_values")]
+    if len(kept) != 1 or not (isinstance(kept[0][1], ast.Call) and is_name(kept[0][1].func, "convert_values")
+                              and kept[0][1].args and is_name(kept[0][1].args[0], "values")):
+        fail(init, "ParameterValues.__init__: self._values is not convert_values(values, ...)")
+    rl = "[" + "; ".join(f"({c}, {k})" for c, k in rules) + "]"
+    return f"(mkNorm {cb(keep_simple)} {cb(keep_und)} {rl} {default})"
+
+
 # ------------------------------------------------------------------------------------------ emission
 
 PRELUDE = ("From Coq Require Import List Bool Arith String.\n"
-           "From PyxelV Require Import Model.Decision Model.DecisionSrc.\n"
+           "From PyxelV Require Import Model.Decision Model.DecisionSrc Model.DecisionKinds.\n"
            "Import ListNotations.\n")
 
 
 def cb(b: bool) -> str:
     return "true" if b else "false"
+
+
+def emit_kinds(norm, sb, init, cv, up) -> str:
+    return ("Definition src_kinds : kdesc :=\n"
+            f"  mkKd {norm}\n"
+            f"    {sb}\n    {init}\n    {cv}\n    {up}.\n")
 
 
 def emit(rows, getter, sb, cv, up, init_copy, fit_conv, rep) -> str:
@@ -1056,10 +1409,12 @@ def translate(repo: Path) -> str:
     up = update(fd)
     init_copy, fit_conv = init_and_fitness(fd)
     rep = reporting(parse(repo, AR), fd)
-    return emit(rows, getter, sb, cv, up, init_copy, fit_conv, rep)
+    return emit(rows, getter, sb, cv, up, init_copy, fit_conv, rep) + \
+        emit_kinds(convert_values_norm(pv), sb["tests"], init_count(fd), cv[2]["tests"], up[2]["tests"])
 
 
 # the description of the unchanged tree; used only to keep a model available for the failing-input search
 # when the translation itself fails (the failed translation is already a broken obligation)
 FALLBACK = (HEADER + PRELUDE + "Definition src_desc : wdesc := desc_as_coded.\n"
-            "Definition src_report : rp_desc := mkRp true true true true.\n")
+            "Definition src_report : rp_desc := mkRp true true true true.\n"
+            "Definition src_kinds : kdesc := kinds_as_coded.\n")
